@@ -99,7 +99,11 @@ def h_rule(kind, spec, year, wallmode=False):
             if hasattr(z, "_cachedate"):        # tzical: per-object lookup cache must not leak between paths
                 del z._cachedate[:]
                 del z._cachecomp[:]
-        tag = "%s|%s|%d" % (kind, rule, year)
+        # which segment between the expected break points the instant lies in: split on it so that the finding key is
+        # pinned by the path (a known finding at one transition must not hide a regression elsewhere)
+        segv = S.add(*[S.b2i(S.le(bp - (86400 if wallmode else 0), t)) for (bp, _st) in ev]) if ev else 0
+        seg = ctx.split(segv, range(len(ev) + 1))
+        tag = "%s|%s|%d|seg%d" % (kind, rule, year, seg)
         native_time = contextlib.nullcontext() if (ctx.symbolic or kind != "tzlocal") else stubs.rebind("dateutil.tz.tz", time=shim)
         with native_time:
             if not wallmode:
@@ -163,7 +167,7 @@ def specs(tier):
     add(us, M_(3, 2, 0, 7200), M_(11, 1, 0, 7200))
     add(au, M_(10, 1, 0), M_(4, 1, 0, 3 * 3600))                         # southern hemisphere
     add(dict(std="CET", stdoff=3600, dst="CEST", dstoff=None), M_(3, 5, 0), M_(10, 5, 0, 3 * 3600))   # last week
-    add(dict(std="NST", stdoff=-3 * 3600 - 1800, dst="NDT", dstoff=None), M_(3, 2, 0, 60), M_(11, 1, 0, 60))   # half-hour std
+    add(dict(std="NST", stdoff=-3 * 3600 - 1800, dst="NDT", dstoff=None), M_(3, 2, 0, 7200 + 60), M_(11, 1, 0, 7200 + 60))   # half-hour std, hh:mm times
     add(dict(std="LHST", stdoff=10 * 3600 + 1800, dst="LHDT", dstoff=11 * 3600), M_(10, 1, 0), M_(4, 1, 0))   # 30 min saving
     add(us, ("J", 60, None), ("J", 300, None))
     add(us, ("N", 59, None), ("N", 300, 3600))
